@@ -242,9 +242,12 @@ Definition all_finished (evs : list event) (f : final) : bool :=
                     | _ => true
                     end) evs.
 
-(** (f) when no issuance is in flight any more, the registration lock is free *)
+Definition no_unlock_fault (evs : list event) : bool :=
+  forallb (fun e => match e with EOp _ true k _ _ => negb (Nat.eqb k k_unlock) | _ => true end) evs.
+
+(** (f) when no issuance is in flight any more (and no Unlock failed), the registration lock is free *)
 Definition spec_lock (evs : list event) (f : final) : bool :=
-  negb (all_finished evs f) || f_lock_free f.
+  negb (all_finished evs f && no_unlock_fault evs) || f_lock_free f.
 
 Definition spec_hist (evs : list event) (f : final) : bool :=
   let o := orun evs in o_ok_e o && o_ok_d o && spec_cas o f 0 (f_cas f) && spec_lock evs f.
